@@ -77,6 +77,7 @@ def faultName : Fault → String
   | .unknownPtr id => s!"unknown pointer {id}"
   | .sizeMismatch id a d => s!"allocation {id}: allocated {a}, released with {d}"
   | .useAfterFree id => s!"use after free of allocation {id}"
+  | .badHandle s => s!"slot {s} does not hold a handle of the expected type"
 
 /-- the call that releases slot `i` (what the harness does at the end with what the caller still holds) -/
 def releaseCall (i : Nat) : Handle → Option Call
@@ -105,8 +106,9 @@ def handle (j : Json) : Except String Json := do
       match st.get (← Drv.nat? cj "s") with
       | some (.buffer b) => res := Json.mkObj [("read", toJson (Drv.hex b.bytes))]
       | _ => pure ()
-    st := run z.sz st cs
-    if !st.protocolOk then throw "the calls do not follow the caller protocol"
+    for c in cs do
+      if !pre st c then throw "the calls do not follow the caller protocol"
+      st := step z.sz st c
     if st.slots.length > before then
       match st.slots[before]? with
       | some sl =>
@@ -126,7 +128,7 @@ def handle (j : Json) : Except String Json := do
   -- the caller releases what it still holds
   let rel := st.slots.zipIdx.filterMap fun (sl, i) => if sl.released then none else releaseCall i sl.h
   let fin := run z.sz st rel
-  let leaked := (fin.heap.cells.filter fun c => c.live && !documentedLeak c).length
+  let leaked := (fin.heap.liveList.filter fun c => !documentedLeak c).length
   return Json.mkObj [("m", Json.mkObj [
     ("results", Json.arr results), ("unreleased", toJson unreleased),
     ("faults", Json.arr (fin.heap.faults.map fun f => toJson (faultName f)).toArray), ("leaked", toJson leaked)])]
